@@ -748,5 +748,6 @@ func main() {
 	run.Assume("submission through TxPool.ProcessTransaction is only made for transactions that are not pooled (its only production caller, Chain.ValidateTx, answers for pooled transactions without calling it); the second search submits through Chain.ValidateTx including re-submission of pooled transactions")
 	run.Assume("no block arrives during a history: u1 and u2 stay confirmed and unspent (confirmation / reorganisation effects on the pool are C23); the pool itself does not detect double spends (t1 and t6 may both be pooled)")
 	run.Assume("the orphan clock is the wall clock inside addOrphan; expiry times are read back from the pool and the ExpireOrphan argument is chosen relative to them (before all, just after the oldest, after all)")
+	concurrent(run)
 	run.Finish()
 }
